@@ -22,7 +22,7 @@ fi
 # mutant run can be killed together with all its worker processes
 VERIF_REPO="$SCR/repo" VERIF_OUT="$SCR/out" setsid /verif/check.sh "$ID" "$TIER" > "$SCR/check.log" 2>&1 &
 cpid=$!
-( sleep "${SELFTEST_TIMEOUT:-2400}"; kill -- -$cpid 2>/dev/null ) & wpid=$!
+( sleep "${SELFTEST_TIMEOUT:-2400}"; kill -- -$cpid 2>/dev/null ) >/dev/null 2>&1 & wpid=$!
 wait $cpid; rc=$?
 kill $wpid 2>/dev/null; pkill -P $wpid sleep 2>/dev/null
 if [ $rc -eq 1 ] && grep -q "^VIOLATION property=$ID" "$SCR/check.log"; then
